@@ -41,6 +41,21 @@ def scenario_to_fuzz(sobj):
     return out
 
 
+def msan_pass(ctx, scns, msan=None):
+    """MemorySanitizer: uninitialised-value use that red zones cannot see (also in what the core hands to the logger)"""
+    if msan is None:
+        msan = H.build(ctx.work, "msan")
+
+    def msan_mon(scn, sobj, r, sf, ck):
+        r.count("msan_scenarios")
+        r.evaluations += len(scn.inputs)
+        for key, txt in sf:
+            r.violation(refine_key(key, scn, sobj), "scenario %s under MemorySanitizer:\n%s" % (scn.sid, txt), replay=sobj.text())
+        if ck and not sf:
+            r.count("msan_crash:" + ck)
+    run_monitored(ctx, msan, scns, msan_mon, tag="msan", cpu_limit=60)
+
+
 def run(ctx, scns, monitor):
     rep = ctx.report
     builds = H.build_many(ctx.work, [dict(flavour="asan-clang"), dict(flavour="msan"), dict(flavour="plain")])
